@@ -33,8 +33,8 @@ META = {
               "float/Time/np.array/np.int64 in pulsarbat.pulsar.predictor accept tokens; `cls` is a capture class that orders the "
               "entries by tmid as PhasePredictor.__init__ does and builds the stand-in table"],
     "bounds": {"intervals": "1..3 entries with symbolic mid times (any order, overlapping, touching, disjoint), common symbolic span",
-               "parsing": "the real from_polyco on a token stream: layouts (entries x NCOEFF x span) 1x2x60, 1x4x60 quick; + 1x3x30, 1x5x288, "
-                          "2x2x60, 2x3x60 thorough (NCOEFF >= 6 with symbolic coefficients does not finish); TMID, RPHASE (integer <= 1e12 and six decimals), F0, every coefficient "
+               "parsing": "the real from_polyco on a token stream: layouts (entries x NCOEFF x span) 1x2x60, 1x4x60 quick; + 1x3x30, "
+                          "2x2x60, 2x3x60 thorough (NCOEFF >= 5 with symbolic coefficients is not decided reliably); TMID, RPHASE (integer <= 1e12 and six decimals), F0, every coefficient "
                           "symbolic; then __call__ / f0 at a symbolic time against the tempo formula on the symbolic numbers",
                "evaluation": "three concrete polyco texts (the repository's timing.dat; a two-entry text with a gap; a generated text with "
                              "ncoeff not a multiple of 3, D exponents, signed coefficients), every entry, time symbolic over and beyond the spans"},
